@@ -46,6 +46,9 @@ type c13Case struct {
 	// ClosedEarlier (conn-close, >= 2 further channels): the further channel
 	// with the lowest id was closed before Conn.Close is called
 	ClosedEarlier bool `json:"a_lower_channel_closed_earlier,omitempty"`
+	// CloseFails (conn-close): the transport's Close closes it and reports
+	// an error
+	CloseFails bool `json:"transport_close_reports_an_error,omitempty"`
 }
 
 var errC13Cause = errors.New("application is shutting down")
@@ -363,6 +366,9 @@ func c13Run(c *Ctx, cs c13Case) {
 	if cs.ClosedEarlier {
 		stateClass += "+lower-channel-closed-earlier"
 	}
+	if cs.CloseFails {
+		stateClass += "+transport-close-fails"
+	}
 	if cs.Fill > 0 || cs.TFail || cs.ErrState != "" {
 		r.Distinct(fmt.Sprintf("%+v", cs))
 	}
@@ -643,6 +649,10 @@ func c13Run(c *Ctx, cs c13Case) {
 		}
 	case "conn-close":
 		gid := waitReaderGID(k.tr)
+		if cs.CloseFails {
+			k.tr.CloseErr = errors.New("close: broken pipe")
+			r.Count("conn_close_with_a_failing_transport_close", 1)
+		}
 		if cs.ClosedEarlier {
 			if len(e.others) < 2 {
 				return
@@ -900,6 +910,12 @@ func runC13(c *Ctx) {
 			for _, n := range []int{2, 3} {
 				cases = append(cases, c13Case{Action: "conn-close", Fill: f, Logical: logical, Peer: "prompt", Channels: n, ClosedEarlier: true})
 			}
+		}
+	}
+	// the transport's Close reports an error
+	for _, f := range []int{0, 2, 4} {
+		for _, logical := range []bool{false, true} {
+			cases = append(cases, c13Case{Action: "conn-close", Fill: f, Logical: logical, Peer: "prompt", Channels: f / 2, CloseFails: true})
 		}
 	}
 	// peers that answer late / never (the never case legally waits a minute)
